@@ -65,6 +65,20 @@ Theorem C03_requested_q_positive : forall cutoff l x, (0 < cutoff)%R ->
 Proof. intros cutoff l x Hc. split; [apply positive_cut_positive; exact Hc | apply positive_cut_keeps]. Qed.
 Print Assumptions C03_requested_q_positive.
 
+(* slit smearing with perfect resolution (no width, no length): weight one on the FIRST entry of q_calc equal to the
+   data q - non-negative, summing to one, and reproducing the unsmeared value exactly, however often the q value
+   occurs in q_calc (merged data sets repeat q values) *)
+Theorem C03_slit_perfect : forall (f : R -> R) qi q_calc, In qi q_calc ->
+  sumL ROps (first_match ROps q_calc qi) = 1 /\
+  Forall (fun x => 0 <= x) (first_match ROps q_calc qi) /\
+  apply ROps (map f q_calc) (first_match ROps q_calc qi) = f qi.
+Proof. intros f qi q_calc H. split; [apply first_match_sum1; exact H|split; [apply first_match_nonneg|apply first_match_reproduces; exact H]]. Qed.
+Print Assumptions C03_slit_perfect.
+Theorem C03_slit_perfect_is_first_match : forall sqrtT half two q_calc qi n,
+  slit_column ROps sqrtT half two q_calc qi 0 0 n = first_match ROps q_calc qi.
+Proof. intros. unfold slit_column. cbn [eqb zero ROps]. assert (E : Reqb 0 0 = true) by (apply Reqb_true; reflexivity). rewrite E. reflexivity. Qed.
+Print Assumptions C03_slit_perfect_is_first_match.
+
 (* the weights the theorems above speak about are those of the CODE: the element formulas regenerated from the
    current text of sasmodels/resolution.py (Gen/C03_code.v; bin_edges, pinhole_resolution, _q_perp_weights and
    apply_resolution_matrix evaluated on symbolic arrays) are the model's, on the reals and on binary64 alike *)
